@@ -233,12 +233,7 @@ func searchCap(c *vkit.Collector, g *gen, cp s2.Cap) {
 	capRep := map[string]interface{}{"cap_center": chainJSON([]s2.Point{cp.Center()}), "cap_radius_chord2": s2.VerifC10CapRadius(cp), "cap": cp.String()}
 	if !b.rect.IsValid() {
 		capRep["rect"] = fs(b.rect.Lat.Lo, b.rect.Lat.Hi, b.rect.Lng.Lo, b.rect.Lng.Hi)
-		k := "Cap.RectBound.invalid.gross"
-		if b.rect.Lat.IsEmpty() == b.rect.Lng.IsEmpty() && math.Abs(b.rect.Lat.Lo) <= math.Pi/2 && math.Abs(b.rect.Lat.Hi) <= math.Pi/2 &&
-			math.Abs(b.rect.Lng.Lo) <= math.Pi && math.Abs(b.rect.Lng.Hi) <= math.Pi {
-			// every endpoint is in range; only the "-pi is written as +pi" convention is broken
-			k = "Cap.RectBound.invalid(-pi endpoint)"
-		}
+		k := "Cap.RectBound.invalid" // any invalid result is a violation (the -pi endpoint case was fixed by /repo bc3af1c)
 		violate(c, k, "Cap.RectBound() is not a valid Rect", capRep)
 	}
 	// probes on both sides of the +-180 meridian, at the centre latitude and around it
